@@ -224,26 +224,23 @@ theorem output_on_negotiated_transport_k_partial (cap : Nat) (ops : List KOp) (h
   rw [← e] at this
   exact ⟨this.1, this.2.2.1, this.2.2.2.1, this.2.2.2.2⟩
 
-/-- The statement for the checked tree (`Tie.WireStack.tree`, computed from the regenerated `Upgrade*` bodies;
-`Tie.WireStack.tree_known`: d6aa4e3 or d6aa4e3 + F30b): full with F30b, the partial one on d6aa4e3. -/
-theorem this_tree_k (cap : Nat) (ops : List KOp)
-    (h : Nsq.Tie.WireStack.tree = treeF30b ∨ NoTlsAfterDeflate ops = true) :
+/-- Every schedule on the checked tree (`Tie.WireStack.tree`, computed from the regenerated `Upgrade*` bodies):
+F30b is committed (/repo d424240) and `Tie.WireStack.tree_is_F30b` decides `tree = treeF30b` — the hypothesis this
+theorem carried while two trees were accepted is discharged. -/
+theorem this_tree_k_full (cap : Nat) (ops : List KOp) :
     (krun Nsq.Tie.WireStack.tree (kconn0 cap) ops).OnNegotiated ∧
     (krun Nsq.Tie.WireStack.tree (kconn0 cap) ops).stray = [] := by
-  rcases Nsq.Tie.WireStack.tree_known with ht | ht
-  · rcases h with h | h
-    · rw [ht] at h; exact absurd h (by decide)
-    · rw [ht]
-      exact ⟨(output_on_negotiated_transport_k_partial cap ops h).1, (output_on_negotiated_transport_k_partial cap ops h).2.1⟩
-  · rw [ht]
-    exact ⟨(output_on_negotiated_transport_k cap ops).1, (output_on_negotiated_transport_k cap ops).2.2.1⟩
+  rw [Nsq.Tie.WireStack.tree_is_F30b]
+  exact ⟨(output_on_negotiated_transport_k cap ops).1, (output_on_negotiated_transport_k cap ops).2.2.1⟩
 
-/-- Every schedule, once the tie decides `tree = treeF30b` (after F30b is committed: `Tie.WireStack.tree_is_F30b`
-discharges `h` — see the tie's header). -/
-theorem this_tree_k_full (h : Nsq.Tie.WireStack.tree = treeF30b) (cap : Nat) (ops : List KOp) :
+/-- The round-11 statement with its disjunctive hypothesis (`tree = treeF30b`, or a schedule inside
+`NoTlsAfterDeflate` — what d6aa4e3 alone guaranteed: `output_on_negotiated_transport_k_partial`), kept under its
+name: with `Tie.WireStack.tree_is_F30b` the hypothesis is not needed any more (`this_tree_k_full`). -/
+theorem this_tree_k (cap : Nat) (ops : List KOp)
+    (_h : Nsq.Tie.WireStack.tree = treeF30b ∨ NoTlsAfterDeflate ops = true) :
     (krun Nsq.Tie.WireStack.tree (kconn0 cap) ops).OnNegotiated ∧
     (krun Nsq.Tie.WireStack.tree (kconn0 cap) ops).stray = [] :=
-  this_tree_k cap ops (Or.inl h)
+  this_tree_k_full cap ops
 
 /-- the frame-level connection of the kinded model is the round-8 model: the theorems above it apply unchanged -/
 theorem kinded_model_refines (tr : Tree) (cap : Nat) (ops : List KOp) :
@@ -281,8 +278,13 @@ example : staleAfter [.deflate, .tls] = true ∧ staleAfter [.snappy, .deflate, 
     staleAfter [.tls, .deflate, .tls] = true ∧ staleAfter [.deflate, .tls, .tls] = true ∧
     staleAfter [.snappy, .tls] = false ∧ staleAfter [.deflate, .snappy, .tls] = false ∧
     staleAfter [.deflate, .tls, .snappy] = false ∧ staleAfter [.deflate, .tls, .deflate] = false := by decide
-/-- the checked tree on a schedule within the hypothesis -/
+/-- the checked tree on a schedule within the old hypothesis -/
 example : (krun Nsq.Tie.WireStack.tree (kconn0 64) [.upgrade .tls 64, .sendResponse okFrame, .upgrade .deflate 64,
     .sendResponse okFrame]).stray = [] := (this_tree_k 64 _ (Or.inr (by decide))).2
+/-- the checked tree on the reviewer's schedule (OUTSIDE `NoTlsAfterDeflate`): nothing stray, no stale writer -/
+example : (krun Nsq.Tie.WireStack.tree (kconn0 16384) (tlsAfterDeflate [83, 69, 67, 82, 69, 84])).stray = [] :=
+  (this_tree_k_full 16384 _).2
+example : (krun Nsq.Tie.WireStack.tree (kconn0 16384) (tlsAfterDeflate [83, 69, 67, 82, 69, 84])).fw = none := by
+  rw [Nsq.Tie.WireStack.tree_is_F30b]; decide
 
 end Nsq.Props.C07Stack
